@@ -386,6 +386,7 @@ func (s *Stats) Check(t *testing.T, prop func(t *rapid.T)) {
 	s.mu.Lock()
 	s.last = nil
 	s.mu.Unlock()
+	failedBefore := t.Failed() // a failing probe or saved replay, recorded already
 	// rapid ends a failing test with FailNow (Goexit), so promote the last
 	// recorded failure (the shrunk one) in a deferred function.
 	defer func() {
@@ -397,7 +398,7 @@ func (s *Stats) Check(t *testing.T, prop func(t *rapid.T)) {
 		s.mu.Unlock()
 		if l != nil {
 			s.addViolation(Violation{Sig: l.f.Sig, Msg: l.f.Msg, Kind: "search", Case: l.c})
-		} else {
+		} else if !failedBefore {
 			s.addViolation(Violation{Sig: "unrecorded", Msg: "rapid reported a failure that did not go through Report (see log)", Kind: "search", Case: json.RawMessage("null")})
 		}
 	}()
